@@ -9,7 +9,7 @@ WEIGHTS = {'decode': 13, 'enumerate': 2, 'n_valid': 1, 'stats': 1, 'fix': 3, 'fr
 
 
 def generate(seed, tier='quick', index=0):
-    return ss.generate(PROPERTY, seed, tier, WEIGHTS, n_ops=(6, 18))
+    return ss.generate(PROPERTY, seed, tier, WEIGHTS, n_ops=(6, 18), conn_share=0.2)
 
 
 def execute(trace):
@@ -17,7 +17,7 @@ def execute(trace):
 
 
 RULE = ('Each run generates a DSG spec (selection choices, incompatibilities, design-variable and metric nodes under '
-        'permanent and conditional nodes) and a history of 6-18 operations over {decode(x, create), enumerate, n_valid, '
+        'permanent and conditional nodes, in 20% of the runs one or two connection choices) and a history of 6-18 operations over {decode(x, create), enumerate, n_valid, '
         'statistics, fix, free, mutate/evaluate a returned instance, pickle round trip, time-limited enumeration killed at '
         'a delivery point}; after every step a processor freshly built from the same spec (fresh node identities) with the '
         'same fixed values must answer identically, and every instance ever returned is re-observed at the end. '
